@@ -6,7 +6,7 @@
     typing premise ([doc_ok]) the model neither panics nor runs out of fuel. *)
 From Coq Require Import List NArith ZArith Bool Lia Permutation.
 From ApiFu Require Import Base.Sexp Exe.ExecData Exe.ExecModel Exe.ExecSpec
-     Exe.ExecBaseProofs Exe.ExecCollectProofs Exe.ExecSpecProofs.
+     Exe.ExecBaseProofs Exe.ExecCollectProofs Exe.ExecDirProofs Exe.ExecSpecProofs.
 Import ListNotations.
 
 (** ** the refinement relation on one step *)
@@ -125,13 +125,13 @@ Section Sim.
   Hypothesis Hfix1 : fix1 M = true.
   Hypothesis Hfix7 : fix7 M = true.
   Hypothesis Hmemo : memo M = false.
-  Hypothesis Hconds : conds_ok S D = true.
+  Hypothesis Hconds : conds_ok S D E = true.
 
   (** [c] refines [s] wherever the document is fine for the type at hand *)
   Definition sim (c : completer) (s : scompleter) : Prop :=
     forall n ty f0 more path st,
       type_ok_with S (sels_ok S D E fuel n) ty (f0 :: more) = true ->
-      forallb (sel_conds_ok S) (merge_subs f0 more) = true ->
+      forallb (sel_conds_ok S E) (merge_subs f0 more) = true ->
       simres st (fst (c ty f0 more path st)) (snd (c ty f0 more path st)) (s ty (f0 :: more) path).
 
   Lemma type_ok_list rec t fields : type_ok_with S rec (StList t) fields = type_ok_with S rec t fields.
@@ -142,7 +142,7 @@ Section Sim.
   (** *** list items *)
   Lemma sim_items n t f0 more path :
     type_ok_with S (sels_ok S D E fuel n) t (f0 :: more) = true ->
-    forallb (sel_conds_ok S) (merge_subs f0 more) = true ->
+    forallb (sel_conds_ok S E) (merge_subs f0 more) = true ->
     forall items sitems, Forall2 sim items sitems -> Forall wf_completer sitems ->
     forall i st,
       let y := complete_items t f0 more path items i st in
@@ -224,7 +224,7 @@ Section Sim.
     (forall k, sim (children k) (schildren k)) -> (forall k, wf_completer (schildren k)) ->
     forall g st,
       forallb (group_ok_with S (sels_ok S D E fuel n) ot) (to_spec g) = true ->
-      Forall (fun x => forallb (sel_conds_ok S) (merge_subs (g_first x) (g_more x)) = true) g ->
+      Forall (fun x => forallb (sel_conds_ok S E) (merge_subs (g_first x) (g_more x)) = true) g ->
       let y := exec_groups S children ot path g st in
       let entries := flat_map (s_entry S schildren ot path) (to_spec g) in
       NoDup (map e_path (flat_map errs_of (map snd entries))) ->
@@ -334,10 +334,10 @@ Section Sim.
 
   (** *** a selection set *)
   Definition group_conds (x : group) : Prop :=
-    forallb (sel_conds_ok S) (merge_subs (g_first x) (g_more x)) = true.
+    forallb (sel_conds_ok S E) (merge_subs (g_first x) (g_more x)) = true.
 
   Lemma gfs_append_conds k f g :
-    forallb (sel_conds_ok S) (fn_sub f) = true -> Forall group_conds g -> Forall group_conds (gfs_append k f g).
+    forallb (sel_conds_ok S E) (fn_sub f) = true -> Forall group_conds g -> Forall group_conds (gfs_append k f g).
   Proof.
     intros Hf Hg. induction Hg as [|x r Hx Hr IH]; cbn [gfs_append].
     - constructor; [|constructor]. unfold group_conds, merge_subs. cbn. rewrite app_nil_r. exact Hf.
@@ -348,7 +348,7 @@ Section Sim.
   Qed.
 
   Lemma append_flat_conds flat g :
-    subs_ok S flat -> Forall group_conds g -> Forall group_conds (append_flat flat g).
+    subs_ok S E flat -> Forall group_conds g -> Forall group_conds (append_flat flat g).
   Proof.
     intro H. revert g. induction H as [|kf flat Hkf _ IH]; intros g Hg; [exact Hg|].
     unfold append_flat in *. cbn [fold_left]. apply IH. apply gfs_append_conds; assumption.
@@ -368,7 +368,7 @@ Section Sim.
 
   Lemma sim_selections n children schildren ot sels path st :
     (forall k, sim (children k) (schildren k)) -> (forall k, wf_completer (schildren k)) ->
-    sels_ok S D E fuel n ot sels = true -> forallb (sel_conds_ok S) sels = true ->
+    sels_ok S D E fuel n ot sels = true -> forallb (sel_conds_ok S E) sels = true ->
     simres st (fst (exec_selections M S D E fuel children ot sels path st))
            (snd (exec_selections M S D E fuel children ot sels path st))
            (s_selection_set S D E fuel schildren ot sels path).
@@ -381,6 +381,7 @@ Section Sim.
     inversion Ec; subst groups. clear Ec.
     destruct (collect_sim S D E Hconds fuel ot sels [] [] v flat Hcs Ef) as [Hci Hsubs].
     unfold exec_selections, collect_fields. rewrite Hmemo, Hci.
+    rewrite (collect_errs_nil_conds S D E Hconds fuel ot sels [] Hcs), add_errs_nil.
     set (g := append_flat flat []) in *.
     assert (Hg : to_spec g = s_group flat) by apply to_spec_group.
     rewrite <- Hg in Hok |- *.
